@@ -26,6 +26,16 @@ def run(cmd, what):
     return r.stdout
 
 
+def run_bounded(cmd, env=None, timeout=3600, cwd=None):
+    """subprocess.run for one-shot drivers with a bound: code under test that does not terminate shows up as returncode 124"""
+    try:
+        return subprocess.run(cmd, capture_output=True, text=True, env=env, timeout=timeout, cwd=cwd)
+    except subprocess.TimeoutExpired as e:
+        def txt(x):
+            return x.decode("utf-8", "replace") if isinstance(x, bytes) else (x or "")
+        return subprocess.CompletedProcess(cmd, 124, txt(e.stdout), txt(e.stderr) + "\ndriver did not terminate within %d s" % timeout)
+
+
 def compile_obj(src, obj, flags, sanitize=True, opt="-O1"):
     cmd = [CC, "-g", opt, "-c", src, "-o", obj, "-w"] + (SAN if sanitize else []) + list(flags)
     run(cmd, "compile " + os.path.basename(src))
@@ -68,7 +78,8 @@ def weak_stubs(objs, out_c, defined_elsewhere=()):
 class Driver:
     """Persistent driver process speaking a line protocol on stdin/stdout."""
 
-    def __init__(self, exe, args=(), max_line=4000):
+    def __init__(self, exe, args=(), max_line=4000, timeout=300):
+        self.timeout = timeout
         self.max_line = max_line        # the driver's input line buffer (minus slack): longer requests are a harness limit
         self.exe = exe
         self.args = list(args)
@@ -79,32 +90,75 @@ class Driver:
     def start(self):
         env = dict(os.environ)
         env.update(SAN_ENV)
+        # binary, unbuffered pipes; lines are assembled here so that waiting for the driver can be bounded by a deadline
         self.p = subprocess.Popen([self.exe] + self.args, stdin=subprocess.PIPE, stdout=subprocess.PIPE,
-                                  stderr=subprocess.PIPE, text=True, bufsize=1, env=env)
+                                  stderr=subprocess.PIPE, bufsize=0, env=env)
+        self._buf = b""
+
+    def _readline(self, deadline):
+        """one line without the newline; None at end of file; raises TimeoutError past the deadline"""
+        import select
+        import time as _t
+        fd = self.p.stdout.fileno()
+        while b"\n" not in self._buf:
+            r, _, _ = select.select([fd], [], [], max(0.0, min(5.0, deadline - _t.time())))
+            if not r:
+                if _t.time() >= deadline:
+                    raise TimeoutError()
+                continue
+            chunk = os.read(fd, 1 << 16)
+            if not chunk:
+                return None
+            self._buf += chunk
+        line, self._buf = self._buf.split(b"\n", 1)
+        return line.decode("ascii", "replace")
 
     def request(self, line):
         """send one line, read lines until 'END'; returns list of lines, or
         raises DriverCrash with the sanitizer report"""
+        import time as _t
         if len(line) > self.max_line:
             raise HarnessError("request of %d characters exceeds the driver's line buffer (%d)" % (len(line), self.max_line))
         try:
-            self.p.stdin.write(line + "\n")
-            self.p.stdin.flush()
+            self.p.stdin.write((line + "\n").encode("ascii"))
         except (BrokenPipeError, OSError):
             return self._crashed()
         out = []
+        deadline = _t.time() + self.timeout
         while True:
-            l = self.p.stdout.readline()
-            if l == "":
+            try:
+                l = self._readline(deadline)
+            except TimeoutError:
+                return self._hung(out)
+            if l is None:
                 return self._crashed(out)
-            l = l.rstrip("\n")
             if l == "END":
                 return out
             out.append(l)
 
+    def _hung(self, partial=()):
+        for pr in self._descendants() + [self.p.pid]:
+            try:
+                os.kill(pr, 9)
+            except OSError:
+                pass
+        self.p.wait()
+        self.restarts += 1
+        self.start()
+        raise DriverCrash("hang", "no reply from the driver within %d s (code under test does not return)" % self.timeout, list(partial))
+
+    def _descendants(self):
+        out = []
+        try:
+            for line in subprocess.run(["ps", "-o", "pid=", "--ppid", str(self.p.pid)], capture_output=True, text=True).stdout.split():
+                out.append(int(line))
+        except Exception:
+            pass
+        return out
+
     def _crashed(self, partial=()):
         try:
-            err = self.p.stderr.read()
+            err = self.p.stderr.read().decode("utf-8", "replace")
         except Exception:
             err = ""
         rc = self.p.wait()
